@@ -974,9 +974,17 @@ def r15_5(ctx):
         if nm.endswith("::eq") and len(t["args"]) == 2:
             for a in t["args"]:
                 lv = C.trace(al, a, through_fields=True)
-                if any(l.kind == "call" and C.callee_name(l.data) in ("std::str::<impl str>::trim_end_matches", "std::str::<impl str>::trim_end") and
-                       has_field(C.trace(al, l.data["args"][0], through_fields=True), "prefix") for l in lv):
-                    forms.add("prefix-without-trailing-whitespace")
+                for l in lv:
+                    if l.kind == "call" and C.callee_name(l.data) in ("std::str::<impl str>::trim_end_matches", "std::str::<impl str>::trim_end") and \
+                            has_field(C.trace(al, l.data["args"][0], through_fields=True), "prefix"):
+                        # trailing WHITESPACE is what is optional: trim_end(), or trim_end_matches(char::is_whitespace) — not one literal
+                        # character (a prefix ending in a tab would no longer continue with its bare form)
+                        pat = C.trace(al, l.data["args"][1]) if len(l.data["args"]) > 1 else []
+                        if any(x.kind == "const" and re.match(r"^('.*'|\".*\")$", C.op_const(x.data) or "") for x in pat):
+                            ctx.violation([al.name, "trim-literal"], "the bare-prefix continuation form strips a literal %s from the prefix instead of "
+                                          "trailing whitespace" % sorted({C.op_const(x.data) for x in pat if x.kind == "const"}), site=ctx.site(al, bb))
+                        else:
+                            forms.add("prefix-without-trailing-whitespace")
         if nm == "std::slice::<impl [T]>::get":
             # byte-level spelling of "starts with len(prefix) spaces": bytes.get(..len(prefix)) whose items are compared with b' '
             from rules_panic import range_parts, len_of
@@ -2191,4 +2199,68 @@ def r11_12(ctx):
     dependencies whatever the Mode (= C02 R02.12)"""
     import rules_sched
     rules_sched.r02_12(ctx)
+
+
+@rule("C14", "R14.9", floor=1)
+def r14_9(ctx):
+    """an overlapped occurrence is skipped, the rest of the line is still substituted: inside the substitution loop of inject_tags, an edge
+    of an ordering test that bypasses the substitution leads back to the loop head — not out of the loop (`break` instead of `continue`
+    would leave every later tag of the line in the text and in the store)"""
+    lib = ctx.lib
+    inj = body(ctx, "tag_inject")
+    if not inj:
+        return
+    subst = [bb for bb, t in calls_to(inj, ("std::string::String::push_str", "std::vec::Vec::<T, A>::push"))
+             if has_call(deep_leaves(inj, t["args"][1], through_fields=True), ROLE["replace_line_ending"])]
+    heads = [bb for bb, t in inj.calls() if C.callee_name(t).endswith("Iterator>::next") and inj.in_cycle(bb)]
+    if not subst or not heads:
+        ctx.unverified("substitution loop of inject_tags not in the reviewed shape (no push of normalised content inside a loop)", site=ctx.site(inj, 0))
+        return
+    tests = 0
+    for sbb in C.switches(inj):
+        c = C.switch_cond(inj, sbb)
+        if c.kind != "bool" or not inj.in_cycle(sbb) or not any(l.kind == "binop" and l.data["op"] in ("Lt", "Le", "Gt", "Ge") for l in c.src):
+            continue
+        own = [h for h in heads if sbb in inj.reachable(h) and h in inj.reachable(sbb)]      # the head(s) of the loop the test sits in
+        for eid, succ, lab in inj.edges(sbb):
+            reach = C.after_edges(inj, {eid}, cut=out_edges(inj, heads))
+            if any(x in reach for x in subst):
+                continue            # this edge goes on to substitute
+            tests += 1
+            if any(h in reach for h in own):
+                ctx.ok("the skipping edge of the overlap test continues with the next occurrence", site=ctx.site(inj, sbb))
+            else:
+                ctx.violation([inj.name, "skip-leaves-loop"], "an occurrence that is skipped (overlap test) ends the substitution loop: later tags of the "
+                              "line are neither substituted nor removed", site=ctx.site(inj, sbb))
+    if not tests:
+        ctx.unverified("no ordering test that skips an occurrence found in the substitution loop", site=ctx.site(inj, 0))
+
+
+@rule("C02", "R02.13", floor=1)
+def r02_13(ctx):
+    """the dependency lookup recognises every documented spelling of a source: the candidates get_txtpp_file probes are the requested name
+    with one `txtpp` component inserted (= C11 R11.10) — a candidate that can never exist means `include X` is not ordered after X"""
+    r11_10(ctx)
+
+
+@rule("C16", "R16.11", floor=1)
+def r16_11(ctx):
+    """text written by a directive keeps its own final line break: the flag handed to the formatter is `ends_with('\\n')` of the raw
+    output, not a test for the file's line ending (= C01 R01.9)"""
+    r01_9(ctx)
+
+
+@rule("C09", "R09.6", floor=1)
+def r09_6(ctx):
+    """a needed-build fails exactly where a normal build fails: the unused-tag error at the end of a file is raised in every mode but
+    Clean (= C14 R14.4) — a positive list of modes that forgets InMemoryBuild makes `--needed` accept what `build` rejects"""
+    r14_4(ctx)
+
+
+@rule("C11", "R11.13", floor=5)
+def r11_13(ctx):
+    """a requested source whose dependencies are all finished is processed to the end: it is re-run as a second pass (= C02 R02.1; a
+    first-pass call at that point is swallowed by the de-duplication and the source is never completed)"""
+    import rules_sched
+    rules_sched.r02_1(ctx)
 
